@@ -24,6 +24,13 @@ CHECKS = {
             "ECDSA/EdDSA/BLS, n in 1..13, cache on/off, verified by the real Authority of two replicas; TLC judges each verdict against Sound* (Pass A), the "
             "completeness direction for honest assemblies, the reported high QC, and against the implementation-shaped Verify* (Pass B).",
             "A single signature check of each scheme is ground truth; BLS aggregates contain only atoms added by the harness.", "DESIGN.md section 6, C02"),
+    "C04": ("model_checking",
+            "TLA+ Rules module (published rules Ref* next to the rules as coded) model-checked by TLC over all small forests and orders; TLC line-check of decisions of the real ruleset objects",
+            "TLC checks Impl = Ref over every forest of 3 blocks and every presentation order (negative control: the old SimpleHotStuff commit rule is refuted). The real "
+            "ChainedHotStuff/SimpleHotStuff/FastHotStuff objects over a real Blockchain are driven over every forest of 3 (thorough: 4) blocks x every order, and random "
+            "forests up to 12 blocks; TLC recomputes each presentation with the published rules (Pass A) and with the code-shaped rules (Pass B) and compares vote, lock and "
+            "commit at every step.",
+            "QC labels equal the certified block's view; a rule condition that mentions an unstored block does not hold.", "DESIGN.md section 6, C04"),
     "C11": ("model_checking",
             "TLA+ SigCache module (LRU state machine, key derivation) model-checked by TLC for transparency; TLC state-machine replay of operation sequences run on a cached and an uncached real Authority",
             "TLC exhausts the cache model over a small request universe and shows cached verdict = uncached verdict in every reachable state (negative control: the "
